@@ -11,14 +11,58 @@ import (
 
 // atAnchors processes "at <anchor> assert/assume/bind" clauses attached to an instruction.
 func (fr *Frame) atAnchors(st *State, ins ssa.Instruction, after bool, extra map[string]Val) {
+	if fr.contract == nil && fr.parent != nil && !fr.spawned {
+		// an inlined helper without a contract of its own (e.g. lines extracted from the function
+		// under contract): its statements answer to the enclosing contract's anchors, provided the
+		// enclosing function has no statement of that kind itself (otherwise ordinals would be ambiguous)
+		af := fr.parent
+		for af != nil && af.contract == nil && af.parent != nil && !af.spawned {
+			af = af.parent
+		}
+		if af != nil && af.contract != nil && len(af.contract.Ats) > 0 {
+			var exposed []string
+			for _, n := range fr.anchors[ins] {
+				base := n
+				if i := strings.LastIndex(n, "#"); i > 0 {
+					base = n[:i]
+				}
+				if base == "return" || base == "panic" || strings.HasPrefix(base, "defer") {
+					continue
+				}
+				if !af.hasAnchorBase(base) {
+					exposed = append(exposed, n)
+				}
+			}
+			if len(exposed) > 0 {
+				af.atAnchorsNamed(st, ins, after, extra, exposed)
+			}
+		}
+		return
+	}
 	if fr.contract == nil || len(fr.contract.Ats) == 0 {
 		return
 	}
-	r := fr.r
 	names := fr.anchors[ins]
 	if len(names) == 0 {
 		return
 	}
+	fr.atAnchorsNamed(st, ins, after, extra, names)
+}
+
+// hasAnchorBase: does the function's own body contain a statement with this anchor base name?
+func (fr *Frame) hasAnchorBase(base string) bool {
+	for _, ns := range fr.anchors {
+		for _, n := range ns {
+			if strings.HasPrefix(n, base+"#") {
+				return true
+			}
+		}
+	}
+	return false
+}
+
+func (fr *Frame) atAnchorsNamed(st *State, ins ssa.Instruction, after bool, extra map[string]Val, names []string) {
+	r := fr.r
 	for _, ac := range fr.contract.Ats {
 		if ac.After != after {
 			continue
@@ -896,6 +940,12 @@ func (fr *Frame) spawn(st *State, in *ssa.Go) {
 				b.T = fv.Type()
 				if lv := r.load(st, b); lv.K != KInvalid {
 					extra["cap_"+fv.Name()] = lv
+					// the name the contract was written with, if the captured variable was renamed
+					for old, cur := range r.eng.aliasesFor(r.eng.funcName(callee), callee) {
+						if cur == fv.Name() {
+							extra["cap_"+old] = lv
+						}
+					}
 				}
 			}
 		}
